@@ -1,0 +1,45 @@
+//go:build verif
+// +build verif
+
+package core
+
+import (
+	"com.tuntun.rangers/node/src/common"
+	"com.tuntun.rangers/node/src/middleware/types"
+	"com.tuntun.rangers/node/src/storage/account"
+)
+
+// Verification hooks H4/H8: exports of unexported operations so that an
+// external harness can drive the real code. Nothing here changes behaviour.
+
+// VerifRemoveGroupsAbove runs the group fork switch's removal
+// (groupChain.removeFromCommonAncestor) down to the given ancestor.
+func VerifRemoveGroupsAbove(ancestor *types.Group) {
+	groupChainImpl.removeFromCommonAncestor(ancestor)
+}
+
+// VerifRemoveLastGroup removes the last group exactly as
+// removeFromCommonAncestor does for one element (lock + remove).
+func VerifRemoveLastGroup() bool {
+	chain := groupChainImpl
+	chain.lock.Lock()
+	defer chain.lock.Unlock()
+	group := chain.getGroupByHeight(chain.height())
+	if group == nil {
+		return false
+	}
+	return chain.remove(group)
+}
+
+// VerifExecuteBlock runs the block executor (VMExecutor.Execute) on the given
+// state with the given situation ("casting", "testing", "fork", ...).
+func VerifExecuteBlock(accountdb *account.AccountDB, block *types.Block, situation string) (common.Hash, []common.Hash, []*types.Transaction, []*types.Receipt) {
+	return newVMExecutor(accountdb, block, situation).Execute()
+}
+
+// VerifResetChains drops the in-process chain singletons so that InitCore can
+// be run again in the same process over the same stores (restart without exec).
+func VerifResetChains() {
+	blockChainImpl = nil
+	groupChainImpl = nil
+}
